@@ -252,8 +252,14 @@ package unmarshal
 //@     modifies d.Tags
 //@ func (*influxDec).Decode [C03]
 //@   flag checks=-assert,-index
+// OTLP logs: the labels of a record are the attributes of its own resource, of its
+// own scope and of the record itself. The resource map is filled from the resource
+// only (it is shared by every scope below it) and the scope map from the scope only.
 //@ func (*otlpLogDec).Decode [C03]
 //@   flag checks=-assert
+//@   at initAttributesMap resource-map-holds-resource-attributes-only: arg2 == &resourceAttrs ==> arg0 == resLog.Resource.Attributes
+//@   at initAttributesMap scope-map-holds-scope-attributes-only: arg2 == &scopeAttrs ==> arg0 == scopeLog.Scope.Attributes
+//@   at initAttributesMap record-attributes-go-to-the-record-map: arg0 == logRecord.Attributes && arg2 == &attrsMap
 
 // ---------------------------------------------------------------- spans (C05 id sizes, C06 one span = one row + its tags)
 
